@@ -1789,10 +1789,17 @@ func (t *seRun) agreementCol(col int) bool {
 		for _, f := range common {
 			key := fmt.Sprintf("%d/%s", di, f)
 			if t.nodes[0].tainted[key] || t.nodes[1].tainted[key] {
+				// One node merged a commit carrying this field while its active version did not know the
+				// field (the merge skips unknown fields) and learned the field afterwards. The statement
+				// demands agreement "on every field both know" - both know it now. Judged under a
+				// signature of its own (one root cause: nothing re-applies the skipped field blocks).
+				t.r.Count("fields_merged_while_unknown_then_learned", 1)
 				if seCanon(ra[f]) != seCanon(rb[f]) {
-					t.r.Note("field-merged-while-unknown-then-learned:-nodes-differ(not-judged)")
+					t.violate("two-node/field-merged-before-the-receiver-knew-it/value-lost-after-the-receiver-learned-the-field",
+						fmt.Sprintf("d%d (%s) field %s: n0 (version #%d) reads %s, n1 (version #%d) reads %s after exchanging all commits; both active versions know the field now, but one node merged the commit that wrote it while its active version did not know the field yet",
+							di, seColNames[col], f, t.nodes[0].active[col], seCanon(ra[f]), t.nodes[1].active[col], seCanon(rb[f])))
+					return false
 				}
-				t.r.Count("fields_excluded_merged_while_unknown", 1)
 				continue
 			}
 			t.r.Count("common_fields_compared", 1)
@@ -1821,7 +1828,7 @@ func init() {
 		CaseTimeout: 10 * time.Minute,
 		Assumptions: []string{
 			"PatchSchema cannot declare a default value for an added field (SchemaFieldDescription has Name/Kind/Typ only, unknown properties are rejected): added fields are expected to read null for documents that never wrote them; a default declared in the SDL (tag) is modelled from the client document",
-			"a field of a document that a node merged while its active version did not know the field is excluded from the two-node comparison (merge ignores unknown fields by design) and counted",
+			"a field of a document that a node merged while its active version did not know the field is compared like every other field once both active versions know it; a disagreement there has its own signature (recorded known finding: the skipped field blocks are never re-applied)",
 			"delivery = copy of the ancestor+link closure then executeMerge via hook H1",
 		},
 	})
